@@ -21,7 +21,7 @@ from typing import Any
 import torch
 import torch.distributed as dist
 
-from simkfac import core, hp as hpmod, models, sched
+from simkfac import core, hp as hpmod, models, ref as R, sched
 from simkfac.ref import F64, layer_info
 
 
@@ -598,6 +598,9 @@ class RankEnv:
                 if not bool(torch.isfinite(t).all()) or float(
                         t.abs().max()) > 1e6:
                     inputs_finite = False
+        if inputs_finite and self.plan.get('factor_dtype') == 'float16' \
+                and not R.fp16_range_ok(self.world, self.caps):
+            inputs_finite = False
         if not inputs_finite:
             # numerically diverged training: K-FAC state may hold inf from
             # here on, the finite-in/finite-out clause no longer applies
@@ -882,6 +885,7 @@ def execute(plan: dict[str, Any], tapes: Any = None,
             bandwidth=s.get('bandwidth', 1e9),
             initialized=plan.get('initialized', True),
             max_actions=s.get('max_actions', 200000),
+            local_size=s.get('local_size'),
         )
         sim = core.Sim(plan['world'], make_chooser(plan, k, tapes), cfg)
         p2 = dict(plan)
